@@ -935,7 +935,11 @@ def new_outlet(
     subidxs = outlet_pix(idx0, subidxs_ds, ncol, subncol, cellsize)
     for i in range(len(subidxs)):
         subidx = subidxs[i]
-        if streams[subidx] != -9 or subuparea[subidx] <= upa0:
+        if (
+            streams[subidx] != -9
+            or subuparea[subidx] <= upa0
+            or subidxs_ds[subidx] == mv
+        ):
             continue
         path = []
         while True:
